@@ -96,6 +96,10 @@ pub struct Emit<'a> {
 }
 
 impl Emit<'_> {
+    /// the property whose generators are running (a few very long histories are generated for the sum / length properties only)
+    pub fn prop(&self) -> u32 {
+        self.prop
+    }
     /// an ordinary case: sharded by content so that equal cases meet and distinct counts are exact
     pub fn case(&mut self, comp: u64, case: Sx) {
         if self.redirect14 {
